@@ -84,7 +84,7 @@ class SetupActor:
         n = rng.randint(lo, hi)
         xy_ids = [i for i in ids if device.channels[i].basis == "XY"]
         non_xy = [i for i in ids if device.channels[i].basis != "XY"]
-        use_xy = bool(xy_ids) and rng.random() < 0.5
+        use_xy = bool(xy_ids) and rng.random() < profile.get("use_xy_p", 0.5)
         pool = xy_ids if use_xy else non_xy
         reusable = bool(getattr(device, "reusable_channels", False))
         chosen: list[str] = []
@@ -136,7 +136,8 @@ class SetupActor:
                     )
                     self.chan_names.append(did if ndm == 0 or did not in self.chan_names else did)
                     ndm += 1
-        if getattr(device, "supports_slm_mask", False) and dmm_ids and rng.random() < profile["slm_p"]:
+        slm_p = profile.get("slm_p_xy", profile["slm_p"]) if use_xy else profile["slm_p"]
+        if getattr(device, "supports_slm_mask", False) and dmm_ids and rng.random() < slm_p:
             tg = rng.sample(qids, rng.randint(1, max(1, len(qids) - 1)))
             op = {"op": "config_slm_mask", "qubits": tg}
             if rng.random() < 0.5:
